@@ -41,15 +41,28 @@ fn set_src(l: &str) -> String {
 pub fn source(case: &str) -> String {
   let f: Vec<&str> = case.split('\t').collect();
   let op = f[1]; let var = f[2] == "v";
+  // modes: `v` both operands through variables, `l` only the left, `r` only the right, `i` both written inline
   let bin = |sym: &str| -> String {
-    if var { format!("sa := {}\nsb := {}\nsa {} sb", set_src(f[3]), set_src(f[4]), sym) } else { format!("{} {} {}", set_src(f[3]), sym, set_src(f[4])) } };
+    match f[2] {
+      "v" => format!("sa := {}\nsb := {}\nsa {} sb", set_src(f[3]), set_src(f[4]), sym),
+      "l" => format!("sa := {}\nsa {} {}", set_src(f[3]), sym, set_src(f[4])),
+      "r" => format!("sb := {}\n{} {} sb", set_src(f[4]), set_src(f[3]), sym),
+      _ => format!("{} {} {}", set_src(f[3]), sym, set_src(f[4])) } };
   match op {
     "lit" => set_src(f[3]),
     "union" => bin("∪"), "inter" => bin("∩"), "diff" => bin("∖"), "symdiff" => bin("Δ"),
     "subset" => bin("⊆"), "psubset" => bin("⊊"), "superset" => bin("⊇"), "psuperset" => bin("⊋"),
-    "elem" => if var { format!("sa := {}\n{} ∈ sa", set_src(f[4]), elem_src(f[3])) } else { format!("{} ∈ {}", elem_src(f[3]), set_src(f[4])) },
-    "notelem" => if var { format!("sa := {}\n{} ∉ sa", set_src(f[4]), elem_src(f[3])) } else { format!("{} ∉ {}", elem_src(f[3]), set_src(f[4])) },
-    "size" => format!("set/size({})", set_src(f[3])),
+    "elem" => match f[2] {
+      "v" => format!("xe := {}\nsa := {}\nxe ∈ sa", elem_src(f[3]), set_src(f[4])),
+      "l" => format!("xe := {}\nxe ∈ {}", elem_src(f[3]), set_src(f[4])),
+      "r" => format!("sa := {}\n{} ∈ sa", set_src(f[4]), elem_src(f[3])),
+      _ => format!("{} ∈ {}", elem_src(f[3]), set_src(f[4])) },
+    "notelem" => match f[2] {
+      "v" => format!("xe := {}\nsa := {}\nxe ∉ sa", elem_src(f[3]), set_src(f[4])),
+      "l" => format!("xe := {}\nxe ∉ {}", elem_src(f[3]), set_src(f[4])),
+      "r" => format!("sa := {}\n{} ∉ sa", set_src(f[4]), elem_src(f[3])),
+      _ => format!("{} ∉ {}", elem_src(f[3]), set_src(f[4])) },
+    "size" => if var || f[2] == "l" { format!("sa := {}\nset/size(sa)", set_src(f[3])) } else { format!("set/size({})", set_src(f[3])) },
     "frommat" => { // kind rows cols data(column-major, `,`-joined)
       let kind = f[3]; let rows: usize = f[4].parse().unwrap(); let cols: usize = f[5].parse().unwrap();
       let els = split_top(f[6], ',');
@@ -123,7 +136,7 @@ pub fn generate(seed: u64, thorough: bool, sink: &mut Sink) -> Vec<String> {
     let kind = EKINDS[it % EKINDS.len()];
     let uni = universe(kind);
     let op = ops[(it / EKINDS.len()) % ops.len()];
-    let mode = if rng.chance(1, 3) { "v" } else { "i" };
+    let mode = *rng.pick(&["v", "i", "i", "l", "r", "i"]);
     // a second operand of another kind now and then (kind mismatch paths)
     let other = rng.chance(1, 12);
     let uni_b = if other { universe(EKINDS[rng.below(EKINDS.len() as u64) as usize]) } else { uni.clone() };
@@ -140,7 +153,7 @@ pub fn generate(seed: u64, thorough: bool, sink: &mut Sink) -> Vec<String> {
       "elem" | "notelem" => { let x = rng.pick(&uni_b).clone(); format!("set\t{}\t{}\t{}\t{}", op, mode, x, a) }
       _ => format!("set\t{}\t{}\t{}\t{}", op, mode, a, b),
     };
-    sink.hit(&format!("op:{}", op)); sink.hit(&format!("kind:{}", kind)); if other { sink.hit("mixed-kinds"); }
+    sink.hit(&format!("op:{}", op)); sink.hit(&format!("kind:{}", kind)); sink.hit(&format!("operands:{}", mode)); if other { sink.hit("mixed-kinds"); }
     if cases.len() < 3 { sink.sample(source(&case)); }
     cases.push(case);
   }
